@@ -27,7 +27,11 @@ def make_spec(seed):
         parent = pick(seed, f"parent{i}", candidates)
         typ = pick(seed, f"type{i}", ["images", "images", "images", "vms"])
         removable = pick(seed, f"removable{i}", [False, False, True])
-        setups.append({"name": name, "parent": parent, "type": typ, "removable": removable})
+        setup = {"name": name, "parent": parent, "type": typ, "removable": removable}
+        # some image setups also leave a vm state, exactly one of the two being marked for removal
+        if typ == "images" and pick(seed, f"alsovms{i}", [False, False, False, True]):
+            setup["also_vms"] = {"marked": pick(seed, f"marked{i}", ["images", "vms"])}
+        setups.append(setup)
         if typ == "images":
             image_states.append(name)
             depth[name] = depth[parent] + 1
@@ -41,7 +45,8 @@ def make_spec(seed):
         two = pick(seed, f"two{j}", [False, False, True])
         choices = [(s["type"], s["name"]) for s in setups] + [("images", "customize")]
         if multi:
-            choices.append(("images", "gd") if multi["dependant_sets"] else ("images", "gm"))
+            # weighted: several leaves (with one and two vms) cloned over the same producers is where parsing is hardest
+            choices += [("images", "gd") if multi["dependant_sets"] else ("images", "gm")] * 3
         typ, dep = pick(seed, f"dep{j}", choices)
         leaf = {"name": f"gl{j}", "vms": ["vm1", "vm2"] if two else ["vm1"], "dep": {"vm1": [typ, dep]}}
         if two:
@@ -59,7 +64,10 @@ def setup_text(spec):
                   f"{pad}    get_state_images = {s['parent']}",
                   f"{pad}    set_state_{s['type']} = {s['name']}",
                   f"{pad}    type = shared_manage_vm"]
-        if s["removable"]:
+        if s.get("also_vms"):
+            lines.append(f"{pad}    set_state_vms = {s['name']}.ram")
+            lines.append(f"{pad}    unset_mode_{s['also_vms']['marked']} = fi")
+        elif s["removable"]:
             lines.append(f"{pad}    unset_mode_{s['type']} = fi")
     m = spec["multi"]
     if m:
